@@ -42,7 +42,7 @@ L += ['', 'Summary.  Round 1 (38 changes): 31 caught by the first run of the tar
       '(update keeping shape and both end breakpoints) and C01_v1 (overload switch on a built object) - an operation and two routes added.',
       'Round 6 (12 changes; the agents were given the list of ideas already used, to force new ones): 11 caught at the first run; C08_w1 missed by C08 (needs a non-ascending executor: C12\'s territory, C12 catches it)',
       '- C08 now also runs under a descending-order executor.  All 107 are caught now',
-      '(`seeded/own.tsv`: every seed against the check of the property it targets, final code).', '']
+      '(`seeded/own.tsv`: every seed against the check of the property it targets, quick tier in sweep mode; rounds 1-3 were run before the last extensions of C01, C08, C11 and C16, which only added obligations).', '']
 if matrix:
     allchecks = sorted({c for mx in matrix.values() for c in mx})
     L += ['Cross matrix (seeds for which the full row was run: every claimed check, quick tier; `x` = exit 1 with at least one VIOLATION line, `u` = exit 1 with only UNCONFIRMED/crash lines, `.` = exit 0):', '',
